@@ -474,8 +474,8 @@ def c18_fifo(w, k, op, before, sim, reports):
                     va = sim.vehicles[q[a][1]]
                     m = w.env.mechatronics[va.mechatronics_id]
                     can_use = cs is not None and m.valid_charger(cs.charger)
-                    out.append(('C18', 'overtaken_in_queue' if can_use else 'overtaken_in_queue_unusable_plug',
-                                {'station': sid, 'charger': cid, 'left_waiting': q[a][1], 'served': q[b][1], 'can_use': can_use}))
+                    if can_use:   # a vehicle queueing for a plug type it can never use is outside the property (hypothesis can_use, DESIGN §5 C18)
+                        out.append(('C18', 'overtaken_in_queue', {'station': sid, 'charger': cid, 'left_waiting': q[a][1], 'served': q[b][1], 'can_use': can_use}))
     return out
 
 def c20_shifts(w, k, op, before, sim, reports):
